@@ -6,6 +6,7 @@ CONSTANTS
  MaxLinesPerPkg = 2
 VIEW View
 INVARIANT TypeOK
+INVARIANT LabelsOk
 INVARIANT RecordEqualsWhatWasInstalled
 PROPERTY NothingInstalledUnlessAllowed
 PROPERTY ForeignNeverTouched
